@@ -1678,3 +1678,29 @@ Lemma wit_renum_ops_ok :
 Proof.
   split; [vm_compute; reflexivity|]. split; [vm_compute; discriminate | vm_compute; reflexivity].
 Qed.
+
+(* ================================================================ a refused geometry / divider changes nothing *)
+Lemma add_children_refused : forall g cp other g', add_children g cp other = (g', false) -> g' = g.
+Proof.
+  intros g cp other g' H. unfold add_children in H. destruct cp as [c|]; [|discriminate].
+  destruct (cell_new g c true (leaves_cell other)); [|inversion H; reflexivity].
+  destruct (cell_new g c false (leaves_surf other)); [discriminate | inversion H; reflexivity].
+Qed.
+
+Lemma set_geom_conflict_atomic : forall g c e g', set_geom g c e = (g', RErr NumberConflict) -> g' = g.
+Proof.
+  intros g c e g' H. unfold set_geom in H. destruct (Nat.ltb 1 (uses_old e)); [discriminate|].
+  destruct (eval_ex _ e) as [t|]; [|discriminate]. unfold link_geometry in H.
+  destruct (add_children g (Some c) t) as [g1 ok] eqn:E. destruct ok; [discriminate|].
+  inversion H; subst. apply (add_children_refused _ _ _ _ E).
+Qed.
+
+Lemma set_div_conflict_atomic : forall g c p isc d g', set_div g c p isc d = (g', RErr NumberConflict) -> g' = g.
+Proof.
+  intros g c p isc d g' H. unfold set_div in H. destruct (c_geom (cellf g c)) as [t|]; [|discriminate].
+  destruct (node_at t p) as [[b dv cp|l cp|o l r cp]|]; try discriminate.
+  destruct (negb (Bool.eqb b isc)); [discriminate|]. destruct cp as [c'|]; [|discriminate].
+  rewrite cell_add_eq in H. cbv zeta in H.
+  destruct (mem_o d (lst isc (cellf g c'))); [discriminate|].
+  destruct (mem_Z _ _); [inversion H; reflexivity | discriminate].
+Qed.
